@@ -647,6 +647,8 @@ def write_evidence(prop, tier, seed, spec, results, nval, t_start, P, violations
         outside_claim=spec.get('outside', []),
         exhaustive=False,
         inconclusive=inconclusive,
+        profiles={'release-like (-C debug-assertions=off -C overflow-checks=on)': sum(1 for r in results if not r.get('name', '').endswith('[debug profile]')),
+                  'debug (-C debug-assertions=on -C overflow-checks=on)': sum(1 for r in results if r.get('name', '').endswith('[debug profile]'))},
     )
     if extra:
         cov.update(extra)
